@@ -10,6 +10,9 @@ from rtamt.semantics.discrete_time_interpreter import DiscreteTimeInterpreter
 
 from rtamt.exception.exception import RTAMTException
 
+from rtamt.syntax.node.ltl.next import Next
+from rtamt.syntax.node.ltl.strong_next import StrongNext
+
 from antlr4 import *
 from antlr4.InputStream import InputStream
 from antlr4.error.ErrorListener import ErrorListener
@@ -302,6 +305,15 @@ class AbstractOnlineSpecification(AbstractSpecification):
 
     # forwarding pastify
     def pastify(self):
+        if isinstance(self.online_interpreter, AbstractDenseTimeOnlineInterpreter):
+            # next has no meaning in dense time; the pastifier would silently
+            # turn it into a delay that the monitor then accepts
+            nodes = list(self.ast.specs)
+            while nodes:
+                node = nodes.pop()
+                if isinstance(node, (Next, StrongNext)):
+                    raise RTAMTException('Next operator not implemented in STL dense-time monitor.')
+                nodes.extend(node.children)
         self.ast = self.pastifier.pastify(self.ast)
 
     # forwarding to interpreter
